@@ -15,6 +15,7 @@ type Clause struct {
 	Assumed bool // exported to callers, not proved (listed as an assumption)
 	Kind  string
 	Label string
+	Scope []string // properties of the block the clause was written in
 	Text  string
 	Expr  *SExpr
 	File  string
@@ -337,6 +338,25 @@ func (sw *SpecWorld) parseDirective(file, pkg string, d rawLine, body []rawLine)
 		c.Key = key
 		if err := parseClauses(c, file, body); err != nil {
 			return err
+		}
+		// a clause without a property scope of its own belongs to the properties of its block
+		if len(c.Props) > 0 {
+			scope := func(cls []*Clause) {
+				for _, cl := range cls {
+					cl.Scope = c.Props
+				}
+			}
+			scope(c.Requires)
+			scope(c.Ensures)
+			for _, l := range c.Loops {
+				scope(l.Invs)
+			}
+			for _, l := range c.LabelLoops {
+				scope(l.Invs)
+			}
+			for _, at := range c.Ats {
+				scope(at.Clauses)
+			}
 		}
 		full := ""
 		switch kw {
